@@ -395,6 +395,41 @@ Proof.
   - apply in_some_prefilter in E2. destruct E2 as [E2 _]. rewrite E2. reflexivity.
   - rewrite andb_false_r. exact IH. Qed.
 
+(* ================================================================== the half-open rule is immaterial *)
+(* indicator of "v is on the ray from p towards +x" *)
+Definition onray (p v : pt) : Z := if (py v =? py p) && (px p <? px v) then 1 else 0.
+
+Lemma cross_sign_diff : forall p a b, on_edge p (a, b) = false ->
+  cross_sign p (a, b) - cross_sign_lo p (a, b) = onray p b - onray p a.
+Proof. intros [x y] [ax ay] [bx by_] H. unfold cross_sign_lo, onray. unf. dif; nia. Qed.
+
+Lemma zsum_map_sub : forall (A : Type) (f g : A -> Z) l,
+  zsum (map f l) - zsum (map g l) = zsum (map (fun e => f e - g e) l).
+Proof. induction l as [|a l IH]; cbn [map zsum]; [reflexivity | rewrite <- IH; lia]. Qed.
+
+Theorem wn_convention_lemma : forall poly p, on_boundary poly p = false -> wn poly p = wn_lo poly p.
+Proof.
+  intros poly p H. unfold wn, wn_lo. apply Z.sub_move_0_r. rewrite zsum_map_sub.
+  rewrite (zsum_map_ext _ _ (fun e => onray p (snd e) - onray p (fst e))).
+  - destruct poly as [|h t]; [reflexivity|]. unfold closed_edges.
+    assert (E : forall l l', length l = length l' ->
+              zsum (map (fun e : pt * pt => onray p (snd e) - onray p (fst e)) (combine l l')) =
+              zsum (map (onray p) l') - zsum (map (onray p) l)).
+    { induction l as [|a l IH]; intros [|b l'] Hl; try discriminate; cbn [combine map zsum fst snd]; [reflexivity|].
+      rewrite IH by (injection Hl; auto). lia. }
+    rewrite E by (rewrite app_length; cbn; lia).
+    rewrite map_app, zsum_app. cbn [map zsum]. lia.
+  - intros [a b] Hin. cbn [fst snd]. apply cross_sign_diff.
+    destruct (on_edge p (a, b)) eqn:E; [|reflexivity].
+    unfold on_boundary in H. rewrite <- H. symmetry. apply existsb_exists. exists (a, b). split; assumption.
+Qed.
+
+(* the main theorem with the other half-open rule *)
+Theorem contain_correct_lo_lemma : forall poly p,
+  contain poly p = on_boundary poly p || negb (wn_lo poly p =? 0).
+Proof. intros. rewrite contain_correct_lemma. destruct (on_boundary poly p) eqn:E; [reflexivity|].
+  rewrite (wn_convention_lemma _ _ E). reflexivity. Qed.
+
 (* ================================================================== signed area, area *)
 Definition ecross (e : pt * pt) : Z := cross (fst e) (snd e).
 
@@ -482,6 +517,8 @@ Example measures_instance :
 Proof. repeat split; cbn; lia. Qed.
 
 Print Assumptions contain_correct_lemma.
+Print Assumptions wn_convention_lemma.
+Print Assumptions contain_correct_lo_lemma.
 Print Assumptions contain_in_box_lemma.
 Print Assumptions inside_in_bbox_lemma.
 Print Assumptions contain_all_spec_lemma.
